@@ -353,6 +353,36 @@ pub fn es_k(c: usize) -> Family {
     Family::list(out)
 }
 
+/// ES-Q: a Base256 run whose last codeword lands on (or next to) the capacity of a real symbol,
+/// followed by more data: for every capacity c, an optional short prefix, a run of high bytes of
+/// length c - 2 - p - 4 ..= c - 2 - p + 1 (p = codewords of the prefix; one or two length codewords),
+/// and a tail of another class.
+pub fn es_q() -> Family {
+    let mut out = Vec::new();
+    let prefixes: [(&[u8], usize); 3] = [(b"", 0), (b"12", 1), (b"A", 1)];
+    let tails: Vec<&[u8]> = vec![b"1", b"12", b"123456", b"ABCDEF", b"abc", b"A"];
+    for c in capacities() {
+        if c < 8 {
+            continue;
+        }
+        for (pre, p) in prefixes {
+            for d in 0..=5usize {
+                let l = match (c + 1).checked_sub(2 + p + d) {
+                    Some(l) if l >= 1 => l,
+                    _ => continue,
+                };
+                for t in &tails {
+                    let mut v = pre.to_vec();
+                    v.extend((0..l).map(|i| 0x80u8 | (i as u8).wrapping_mul(37)));
+                    v.extend_from_slice(t);
+                    out.push(v);
+                }
+            }
+        }
+    }
+    Family::list(out)
+}
+
 /// ES-J2: a long Base256 / C40 run at a length-field boundary, an EDIFACT-favouring middle part
 /// of every length 0..=40 and a short suffix of another class.
 pub fn es_j2() -> Family {
